@@ -9,40 +9,93 @@ package agent
 
 import (
 	"fmt"
+	"math"
 	"os"
+	"path/filepath"
 	"strings"
 	"testing"
 	"time"
 
+	"github.com/prometheus/common/promslog"
+
 	"github.com/prometheus/prometheus/internal/verif/vx"
+	"github.com/prometheus/prometheus/tsdb/record"
+	"github.com/prometheus/prometheus/tsdb/wlog"
+	"github.com/prometheus/prometheus/util/compression"
 )
 
-func c15AgentSelfTest(t *testing.T, r *vx.Run) {
-	c := agxParse("base@medium")
-	c.Shadow = true
-	x := newAgx(c)
-	x.c15 = true
-	defer x.Close()
-	for _, op := range []string{"a/s1/F+1/f", "ax/s2/F+1", "c", "T/F", "a/s1/F+1/h", "c", "re"} {
-		if f := x.Apply(op, true); f != nil {
-			r.Violation(f.Signature, "self-test history: "+f.Message, map[string]any{"config": "agent:base@medium", "ops": append([]string{}, x.hist...)})
-			return
-		}
-	}
-	// removing the checkpoint from the live log must be noticed (data of the untruncated log lost)
-	w, f := agxDecode(x.walDir(), false, true)
-	if f != nil || w.CP < 0 {
-		t.Fatalf("self-test: expected a checkpoint (%v)", f)
-	}
-	if err := os.RemoveAll(fmt.Sprintf("%s/checkpoint.%08d", x.walDir(), w.CP)); err != nil {
+// c15AgentSelfTest feeds the oracle SYNTHETIC logs, written with wlog and record.Encoder only
+// (no agent code runs), so that its outcome cannot depend on the code under test.
+func c15AgentSelfTest(t *testing.T) {
+	dir, err := os.MkdirTemp("", "c15self")
+	if err != nil {
 		t.Fatal(err)
 	}
-	if f := x.check(); f == nil || !strings.HasPrefix(f.Signature, "agent-record-without-preceding-series-record") {
+	defer os.RemoveAll(dir)
+	x := &agx{cfg: agxParse("base@small"), dir: dir, shadow: filepath.Join(dir, "shadow"), m: newAgxModel(0), maxMint: math.MinInt64, c15: true}
+	if err := os.MkdirAll(x.shadow, 0o777); err != nil {
+		t.Fatal(err)
+	}
+	w, err := wlog.NewSize(promslog.NewNopLogger(), nil, x.walDir(), 2*32*1024, compression.None)
+	if err != nil {
+		t.Fatal(err)
+	}
+	var enc record.Encoder
+	must := func(err error) {
+		if err != nil {
+			t.Fatal(err)
+		}
+	}
+	// segment 0: series record ref1 = s1 and a sample; segment 1: another sample of ref1
+	must(w.Log(enc.Series([]record.RefSeries{{Ref: 1, Labels: agxSeries["s1"]}}, nil)))
+	must(w.Log(enc.Samples([]record.RefSample{{Ref: 1, T: 11, V: 1}}, nil)))
+	_, err = w.NextSegment()
+	must(err)
+	must(w.Log(enc.Samples([]record.RefSample{{Ref: 1, T: 12, V: 2}}, nil)))
+	must(w.Close())
+	decode := func() *agxWal {
+		l, f := agxDecode(x.walDir(), false, true)
+		if f != nil {
+			t.Fatalf("self-test: %s", f.Message)
+		}
+		return l
+	}
+	if f := x.checkC15(decode()); f != nil {
+		t.Fatalf("self-test: intact synthetic log is judged wrong: %s: %s", f.Signature, f.Message)
+	}
+	// "truncate" segment 0 without writing a checkpoint: the sample in segment 1 loses its series
+	// record and the sample t=11 is gone, while the shadow copy still has everything.
+	must(os.Remove(wlog.SegmentName(x.walDir(), 0)))
+	if f := x.checkC15(decode()); f == nil || f.Signature != "agent-record-without-preceding-series-record/in-live-segment" {
 		t.Fatalf("self-test: oracle did not report the record whose series record was lost (%v)", f)
 	}
-	x.soft = func(string, string) {} // tolerate the orphan, the data comparison must complain next
-	if f := x.check(); f == nil || !strings.HasPrefix(f.Signature, "agent-replay-lacks-data-of-untruncated-log") {
-		t.Fatalf("self-test: oracle did not report the lost checkpoint data (%v)", f)
+	var soft []string
+	x.soft = func(sig, _ string) { soft = append(soft, sig) } // tolerate the orphan: the data comparison must complain next
+	if f := x.checkC15(decode()); f == nil || !strings.HasPrefix(f.Signature, "agent-replay-lacks-data-of-untruncated-log") || len(soft) != 1 {
+		t.Fatalf("self-test: oracle did not report the lost data (%v, soft %v)", f, soft)
+	}
+	// an orphan inside a checkpoint without any observed precondition is a plain violation too,
+	// with a precondition observed for ITS series it is filed under that precondition only
+	cp, err := wlog.NewSize(promslog.NewNopLogger(), nil, wlog.CheckpointDir(x.walDir(), 0), 2*32*1024, compression.None)
+	must(err)
+	must(cp.Log(enc.Samples([]record.RefSample{{Ref: 1, T: 11, V: 1}}, nil)))
+	must(cp.Close())
+	soft = nil
+	x.checkC15(decode())
+	if len(soft) != 2 || soft[0] != "agent-record-without-preceding-series-record" {
+		t.Fatalf("self-test: orphan in the checkpoint reported as %v", soft)
+	}
+	x.m.dupRestart["s2"] = true // another series: must not excuse s1
+	soft = nil
+	x.checkC15(decode())
+	if len(soft) != 2 || soft[0] != "agent-record-without-preceding-series-record" {
+		t.Fatalf("self-test: a precondition observed for s2 excused an orphan of s1: %v", soft)
+	}
+	x.m.dupRestart["s1"] = true
+	soft = nil
+	x.checkC15(decode())
+	if len(soft) != 2 || soft[0] != "agent-record-without-preceding-series-record/duplicate-series-records-at-restart" || soft[1] != "agent-record-without-preceding-series-record/in-live-segment" {
+		t.Fatalf("self-test: known precondition not applied narrowly: %v", soft)
 	}
 }
 
@@ -65,16 +118,16 @@ func TestVerifC15Agent(t *testing.T) {
 		}
 		return
 	}
-	c15AgentSelfTest(t, r)
+	c15AgentSelfTest(t)
 	type plan struct {
 		name  string
 		depth int
 	}
 	var plans []plan
 	if r.Quick() {
-		plans = []plan{{"base@small", 3}, {"base@medium", 2}, {"base@small+dup", 3}, {"base@small+cp", 3}}
+		plans = []plan{{"base@small", 3}, {"base@medium", 2}, {"base@small+dup", 3}, {"base@small+cp", 3}, {"base@small+dupspan", 2}, {"base@small+dupspanh", 2}, {"base@small+dupspanfh", 2}}
 	} else {
-		plans = []plan{{"base@small", 5}, {"ooo@small", 4}, {"base@medium", 3}, {"v2@medium", 3}, {"base@small+dup", 4}, {"base@small+cp", 4}, {"base@medium+dup", 3}}
+		plans = []plan{{"base@small", 5}, {"ooo@small", 4}, {"base@medium", 3}, {"v2@medium", 3}, {"base@small+dup", 4}, {"base@small+cp", 4}, {"base@medium+dup", 3}, {"base@small+dupspan", 4}, {"base@small+dupspanh", 3}, {"base@small+dupspanfh", 3}, {"v2@small+dupspan", 3}, {"base@medium+dupspan", 2}}
 	}
 	if v := os.Getenv("VERIF_C15A_PLAN"); v != "" {
 		plans = nil
